@@ -369,9 +369,80 @@ def e2e(spec):
                     stats['bus_cable_names_differ'] = 1
             if n2.name != nl.name and not bad:
                 bad.append({'sig': 'names-not-restored|netlist-name', 'before': nl.name, 'after': n2.name})
+            if not bad:
+                bad += after_refused_add(n2, td)
     finally:
         shutil.rmtree(td, ignore_errors=True)
     return bad, stats
+
+
+def after_refused_add(n2, td):
+    """(d) history on the netlist that was just read (it is under the EDIF policy and carries identifiers): a new
+    sibling whose name differs from an existing instance in letter case only is created and the design written
+    (the writer gives it a generated identifier I); the sibling is removed again; an element that carries I as
+    its identifier but an ALREADY TAKEN name is offered to the same cell and refused; the case variant is created
+    once more and the design written again: every instance must again get a legal, case-insensitively unique
+    identifier and the file must be readable. A refused add must leave nothing behind that a later export
+    trips over."""
+    import spydrnet as sdn
+    out = []
+    scope = None
+    for lib in n2.libraries:
+        for d in lib.definitions:
+            kids = [c for c in d.children if isinstance(c.name, str) and c.name.swapcase() != c.name
+                    and not any(k.name == c.name.swapcase() for k in d.children)]
+            if kids:
+                scope = (d, kids[0])
+                break
+        if scope:
+            break
+    if scope is None:
+        return out
+    d, c = scope
+    ref = c.reference
+    variant = c.name.swapcase()
+    try:
+        e1 = d.create_child(name=variant, reference=ref)
+        sdn.compose(n2, os.path.join(td, 'step1.edf'))
+        ident = e1.data.get('EDIF.identifier')
+        d.remove_child(e1)
+        if not isinstance(ident, str):
+            return out
+        r = sdn.Instance()
+        r['EDIF.identifier'] = ident
+        r.name = c.name
+        r.reference = ref
+        try:
+            d.add_child(r)
+            return out            # accepted (the name was free after all): nothing to observe
+        except ValueError:
+            pass
+        r.reference = None
+        e2 = d.create_child(name=variant, reference=ref)
+    except Exception as e:  # noqa
+        return [{'sig': 'after-refused-add|setup-raises', 'text': '%s: %s' % (type(e).__name__, str(e)[:160])}]
+    try:
+        path = os.path.join(td, 'step2.edf')
+        sdn.compose(n2, path)
+    except Exception as e:  # noqa
+        return [{'sig': 'after-refused-add|compose-raises', 'text': '%s: %s' % (type(e).__name__, str(e)[:160])}]
+    ids = [k.data.get('EDIF.identifier') for k in d.children]
+    low = [i.lower() if isinstance(i, str) else i for i in ids]
+    if any(not isinstance(i, str) or not legal(i) for i in ids) or len(set(low)) != len(low):
+        out.append({'sig': 'after-refused-add|identifiers-illegal-or-colliding', 'ids': repr(ids)[:200]})
+    try:
+        n3 = sdn.parse(path)
+        want = sorted(k.name for k in d.children)
+        got = None
+        for lib in n3.libraries:
+            for dd in lib.definitions:
+                if dd.name == d.name and lib.name == d.library.name:
+                    got = sorted(k.name for k in dd.children)
+        if got != want:
+            out.append({'sig': 'after-refused-add|names-not-restored', 'want': repr(want)[:150], 'got': repr(got)[:150]})
+    except Exception as e:  # noqa
+        out.append({'sig': 'after-refused-add|reparse-fails', 'text': '%s: %s' % (type(e).__name__, str(e)[:160])})
+    return out
 
 
 def _differs_only_in_bus_cables(before, after, spec):
